@@ -628,7 +628,7 @@ def explore(cfg, monitors, bound, prop, crash_is_violation=False, max_runs=20000
             out["samples"].append({"choices": [c[2] for c in r.choices], "points": [c[0] for c in r.choices][:12], "events": r.events})
         vs = [v for v in r.viol if v["property"] == prop]
         if cfg.get("expect_error"):
-            if r.crash is None and prop == "C20":
+            if r.crash is None and prop in cfg.get("expect_props", ["C20"]):
                 vs.append({"property": prop, "clause": "invalid-config-rejected", "kind": "factory",
                            "detail": "%s was simulated to t=%s without any error (%d item movements)" % (cfg.get("why"), cfg.get("until"), r.moved),
                            "facets": {"why": cfg.get("why")}, "t": None})
